@@ -6,7 +6,7 @@ CONSTANTS
   PanicJobs = {"j3"}
   Caught = TRUE
   DriverLoop = TRUE
-  Fix = FALSE
+  Fix = TRUE
   TimedFifo = TRUE
   MaxLen = 40
   NoTimeout = FALSE
